@@ -54,7 +54,11 @@ func tickGuardTables(c *Ctx, rule string) {
 		if f == nil {
 			continue
 		}
-		t := ExtractTable(p, f, TableConfig{Domain: dom})
+		// unexported helpers of the scheduler itself (an extracted common tail) are interpreted in place
+		t := ExtractTable(p, f, TableConfig{Domain: dom, Inline: func(g *types.Func) bool {
+			sg, _ := g.Type().(*types.Signature)
+			return sg != nil && sg.Recv() != nil && !g.Exported() && g.Pkg() == f.Pkg() && strings.HasSuffix(sg.Recv().Type().String(), ".TickScheduler")
+		}})
 		roles := []Role{
 			{Name: "has", IsBool: true, Match: func(a *Atom) bool { return a.Has(hasF) }},
 			{Name: "pending", Match: func(a *Atom) bool { return a.Has(nextF) }},
@@ -215,12 +219,43 @@ func runC12(c *Ctx) {
 	} else {
 		fns := p.SrcFuncs(func(pp string) bool { return !clientPkg(pp) })
 		sites := CallSites(fns, func(f *types.Func) bool { return f == mk })
+		// TickNow, TickLater, or an unexported helper of the scheduler that only they call
+		var allowed func(fn *ssa.Function, depth int) bool
+		allowed = func(fn *ssa.Function, depth int) bool {
+			k := SSAFuncKey(fn)
+			if k == "modeling.TickScheduler.TickNow" || k == "modeling.TickScheduler.TickLater" {
+				return true
+			}
+			obj, _ := fn.Object().(*types.Func)
+			if obj == nil || obj.Exported() || !strings.HasPrefix(k, "modeling.TickScheduler.") || depth > 2 {
+				return false
+			}
+			callers := CallSites(fns, func(f *types.Func) bool { return f == obj })
+			for _, cs := range callers {
+				if !allowed(cs.Fn, depth+1) {
+					return false
+				}
+			}
+			// and never taken as a method value
+			for _, g := range fns {
+				for _, b := range g.Blocks {
+					for _, in := range b.Instrs {
+						if mc, isMC := in.(*ssa.MakeClosure); isMC {
+							if bf, isF := mc.Fn.(*ssa.Function); isF && strings.HasPrefix(bf.Name(), obj.Name()+"$bound") {
+								return false
+							}
+						}
+					}
+				}
+			}
+			return len(callers) > 0
+		}
 		for _, s := range sites {
 			k := SSAFuncKey(s.Fn)
-			c.Check(k == "modeling.TickScheduler.TickNow" || k == "modeling.TickScheduler.TickLater", "tick-event-construction", "MakeTickEvent@"+k, s.Pos(),
+			c.Check(allowed(s.Fn, 0), "tick-event-construction", "MakeTickEvent@"+k, s.Pos(),
 				"tick event built by the scheduler", "a tick event is built outside TickScheduler.TickNow/TickLater, bypassing the clock-edge rounding and the dedup guard")
 		}
-		c.Floor("tick-event-construction", 2)
+		c.Floor("tick-event-construction", 1)
 	}
 	for _, name := range []string{"NotifyRecv", "NotifyPortFree"} {
 		if f := c.fn("notify-retick", "modeling", "TickingComponent", name); f != nil {
@@ -312,6 +347,24 @@ func edHandle(c *Ctx, rule string) {
 	if f := c.fn(rule, "modeling", "EventDrivenComponent", "Handle"); f != nil {
 		t := ExtractTable(p, f, TableConfig{})
 		ok, why := len(t.Rows) > 0 && len(t.Unsupported) == 0, "outside the analysable fragment"
+		// the value stored into the guard is the constant 2^64-1 ('none'), however it is spelled
+		noneSentinel := false
+		if sf := p.SSAFunc(f); sf != nil {
+			noneSentinel = true
+			n := 0
+			for _, b := range sf.Blocks {
+				for _, in := range b.Instrs {
+					if st, isSt := in.(*ssa.Store); isSt && FieldOf(st.Addr) != nil && pendF != nil && sameObj(FieldOf(st.Addr), pendF) {
+						n++
+						cst, isC := stripConv(st.Val).(*ssa.Const)
+						if !isC || cst.Value == nil || cst.Value.ExactString() != "18446744073709551615" {
+							noneSentinel = false
+						}
+					}
+				}
+			}
+			noneSentinel = noneSentinel && n > 0
+		}
 		for _, r := range t.Rows {
 			proc := r.Calls(func(e *Effect) bool { return e.Kind == "call" && e.Callee != nil && e.Callee.Name() == "Process" })
 			st := r.Stores(func(e *Effect) bool { return e.RecvHas(pendF) })
@@ -319,7 +372,7 @@ func edHandle(c *Ctx, rule string) {
 				ok, why = false, "a timer event must run the processor exactly once"
 				continue
 			}
-			if len(st) == 0 || st[0].Gen > proc[0].Gen || !strings.Contains(st[0].Args[0], "MaxUint64") {
+			if len(st) == 0 || st[0].Gen > proc[0].Gen || !noneSentinel {
 				ok, why = false, "the pending-wake-up guard must be reset (to 'none') before the processor runs; otherwise wake-ups requested by the processor or arriving later at this instant are treated as duplicates and lost"
 			}
 			if len(proc[0].Args) != 2 || !strings.HasSuffix(proc[0].Args[1], ".Time()") {
